@@ -134,6 +134,9 @@ func (l *library) drawModel(r *rng.R) drawnModel {
 		if r.Chance(1, 6) {
 			corpus.InPlaceNames(r, e)
 		}
+		if r.Chance(1, 8) {
+			corpus.OptionalFields(r, e)
+		}
 		return fromEntry(e)
 	case x < 17 || len(l.samples) == 0:
 		e := corpus.DrawDAG(r)
@@ -151,6 +154,9 @@ func (l *library) drawModel(r *rng.R) drawnModel {
 		}
 		if r.Chance(1, 5) {
 			corpus.InPlaceNames(r, e)
+		}
+		if r.Chance(1, 6) {
+			corpus.OptionalFields(r, e)
 		}
 		return fromEntry(e)
 	default:
